@@ -157,11 +157,56 @@ pub fn run(rep: &mut Report) {
         agg
     });
     rep.agg.merge(a);
+    // ---- large windows: the 32-bit sums of the rolling hashes wrap around (RollSum from w ~ 4100), so a
+    // hash that is not a function of the window alone only shows here. A small fixed family, all pairs.
+    {
+        let mut x: u32 = 977;
+        let mut rnd = move || {
+            x ^= x << 13;
+            x ^= x >> 17;
+            x ^= x << 5;
+            (x >> 8) as u8
+        };
+        let pres: Vec<Vec<u8>> = vec![vec![], vec![0u8; 129], vec![0xff; 9000], (0..20_000).map(|_| rnd()).collect(), vec![0xff; 40_000]];
+        let sufs: Vec<Vec<u8>> = vec![
+            (0..70_000).map(|i| if (i / 6100) % 3 == 2 { 0 } else { rnd() }).collect(),
+            (0..70_000).map(|i| if (i / 9000) % 2 == 1 { 0xff } else { rnd() }).collect(),
+            (0..70_000).map(|_| rnd()).collect(),
+        ];
+        let mut big = vec![];
+        for w in [4200usize, 6000, 16384] {
+            for algo in [Algo::Roll, Algo::Buz] {
+                big.push(Cfg::new(algo, w, 0, 16384.max(w), 9));
+                big.push(Cfg::new(algo, w, w + 1, 3 * w, 11));
+            }
+        }
+        let (pres_ref, sufs_ref, big_ref) = (&pres, &sufs, &big);
+        let b = par_shards(big.len() * sufs.len(), threads(), |k| {
+            let c = &big_ref[k / sufs_ref.len()];
+            let s = &sufs_ref[k % sufs_ref.len()];
+            let bc = c.to_bitar();
+            let mut agg = Agg::default();
+            for i in 0..pres_ref.len() {
+                let mut d1 = pres_ref[i].clone();
+                d1.extend_from_slice(s);
+                let c1 = match real_cuts(&bc, &d1) {
+                    Ok(x) => x,
+                    Err(_) => continue,
+                };
+                for j in i + 1..pres_ref.len() {
+                    agg.add("large_window_pairs", 1);
+                    check_pair(c, &bc, &pres_ref[i], &pres_ref[j], s, &c1, &mut agg);
+                }
+            }
+            agg
+        });
+        rep.agg.merge(b);
+    }
     let pairs_n = rep.agg.get("pairs");
     rep.set("evaluations", json!(pairs_n));
     rep.set("distinct_nontrivial", json!(rep.agg.get("pairs_common_boundary_and_differing_earlier")));
     rep.set("exhaustive", json!(true));
-    rep.set("rule", json!("all (P1,P2,S): P over {00,07}^<=3, S all strings of suffix_len over each suffix alphabet, all grid configurations, single-read delivery plus a 1-in-16 slice with the second stream delivered 1 or 3 bytes per read with Pending results in between; a case is non-trivial when both chunkings share a boundary at an S-position >= window and their boundary sets before it differ (the premise of the statement holds and resynchronisation is actually exercised)"));
+    rep.set("rule", json!("all (P1,P2,S): P over {00,07}^<=3, S all strings of suffix_len over each suffix alphabet, all grid configurations, single-read delivery plus a 1-in-16 slice with the second stream delivered 1 or 3 bytes per read with Pending results in between; plus a fixed family with windows 4200 / 6000 / 16384 (32-bit hash sums wrap around), 5 prefixes (empty, zeros, 0xff runs, pseudo-random) x 3 suffixes of 70 kB, all prefix pairs; a case is non-trivial when both chunkings share a boundary at an S-position >= window and their boundary sets before it differ (the premise of the statement holds and resynchronisation is actually exercised)"));
     rep.assume("prefixes up to 3 bytes and suffixes of one fixed small length; windows 1..4");
 }
 
